@@ -78,6 +78,9 @@ def sweep (sp : String) (r : Int) : Nat × Nat × UInt64 × Option String :=
       (max md d, (if rangeFail then nr + 1 else nr), h, first.orElse fun _ => e)) acc)
     (0, 0, h0, none)
 
+def parseDepth : String → Option Depth
+  | "8" => some .d8 | "16" => some .d16 | "32f" => some .d32f | _ => none
+
 def showF64Bits (x : Float) : String := toString x.toBits.toNat
 
 def model (line : String) : String :=
@@ -115,6 +118,12 @@ def model (line : String) : String :=
     match ints [g, a] with
     | some [g, a] => showInts (grayAlphaToRgba8 g a) ++ " | " ++ showInts (grayAlphaToRgb8 g a) ++ " | " ++ showInts [mul8 g a] ++ " | " ++ showInts (grayToRgba8 g)
     | _ => "bad-op"
+  | ["gax", sd, td, g, a] =>
+    match parseDepth sd, parseDepth td, ints [g, a] with
+    | some s, some t, some [g, a] =>
+      showInts (grayAlphaToRgba s t g a) ++ " | " ++ showInts (grayAlphaToRgb s t g a) ++ " | " ++ showInts ((grayAlphaToRgb s t g a).take 1)
+        ++ " | " ++ showInts (grayToRgba s t g)
+    | _, _, _ => "bad-op"
   | ["lumd", r, g, b] =>
     match ints [r, g, b] with
     | some [r, g, b] => showF64Bits (lumDouble r g b) ++ " " ++ toString (lum8 r g b)
@@ -166,6 +175,19 @@ def judge (op obs : String) : String :=
         else "ok"
       | _, _ => fail ("not-a-value:" ++ (obs.take 40).toString)
     else fail "bad-op"
+  | ["gax", sd, td, g, a] =>
+    match parseDepth sd, parseDepth td, ints [g, a], (splitBars (words obs)).map ints with
+    | some s, some t, some [g, a], [some o1, some o2, some o3, some o4] =>
+      let same3 (o : List Int) : Bool := o.getD 0 0 == o.getD 1 0 && o.getD 1 0 == o.getD 2 0
+      -- premultiplied grey: within one source unit plus one destination unit of g*a
+      let premOk (v : Int) : Bool := inRangeD t v && Float.abs (unitD t v - unitD s g * unitD s a) ≤ stepD s + stepD t + 1.0e-9
+      if o1.length ≠ 4 ∨ o2.length ≠ 3 ∨ o3.length ≠ 1 ∨ o4.length ≠ 4 then fail "shape"
+      else if !(same3 o1 && convOk s t g (o1.getD 0 0)) then fail "gray-alpha-to-rgba-gray"
+      else if !(convOk s t a (o1.getD 3 0)) then fail "gray-alpha-to-rgba-alpha-carried-over"
+      else if !(same3 o4 && convOk s t g (o4.getD 0 0) && o4.getD 3 0 == t.maxV) then fail "gray-to-rgba"
+      else if !(same3 o2 && premOk (o2.getD 0 0) && premOk (o3.getD 0 0)) then fail "gray-alpha-premultiplied"
+      else "ok"
+    | _, _, _, _ => fail ("not-a-value:" ++ (obs.take 40).toString)
   | ["ga", g, a] =>
     match ints [g, a], (splitBars (words obs)).map ints with
     | some [g, a], [some o1, some o2, some o3, some o4] =>
